@@ -213,6 +213,27 @@ Fixpoint d_run (w : world) (st : dstate) (ops : list dop) : dstate :=
 Fixpoint d_trace (w : world) (st : dstate) (ops : list dop) : list (dstate * dres) :=
   match ops with [] => [] | o :: r => let sr := d_step w st o in sr :: d_trace w (fst sr) r end.
 
+(* ---- caught exceptions: nitro::dl::exception(char* dle, what) copies the diagnostic into its own std::string member at
+        construction, so the exception VALUE carries it.  The handler keeps (a copy of) every exception it catches; the
+        diagnostic of the k-th one can be read at any later time. ---- *)
+Record xstate := mkX { xd : dstate; xlog : list (option diag) }.
+Definition x_init (n : nat) : xstate := mkX (d_init n) [].
+Inductive xop :=
+| XOp (o : dop)              (* an operation; if it raises, the exception is caught and kept *)
+| XRead (k : nat).           (* caught[k].dlerror() *)
+Inductive xres :=
+| XRes (r : dres)
+| XDiag (d : option (option diag)).   (* None: no such exception; Some dle: the diagnostic it carries (None = empty string) *)
+Definition x_step (w : world) (xs : xstate) (o : xop) : xstate * xres :=
+  match o with
+  | XOp o =>
+      let '(st', r) := d_step w (xd xs) o in
+      (mkX st' (match r with DRaise dle => xlog xs ++ [dle] | _ => xlog xs end), XRes r)
+  | XRead k => (xs, XDiag (nth_error (xlog xs) k))
+  end.
+Fixpoint x_run (w : world) (xs : xstate) (ops : list xop) : xstate :=
+  match ops with [] => xs | o :: r => x_run w (fst (x_step w xs o)) r end.
+
 (* every owner of the pool is destroyed, in slot order *)
 Fixpoint d_drop_from (st : dstate) (i n : nat) : dstate :=
   match n with
